@@ -236,7 +236,8 @@ def main(prop, tier, seed, replay_path=None):
     consts = {"NRows": "= 4", "Classes": '= {"Base", "Samples", "SMC"}',
               "Namespaces": "= {" + ", ".join(f'"{n}"' for n in nss) + "}",
               "Widths": "= {32, 64}", "Depth": "= 2", "Mode": f'= "{mode}"'}
-    cases, r, ncases = tlacases.export_cases("SampleSet", consts, name="sampleset-" + mode, timeout=3000)
+    cases, r, ncases = tlacases.export_states("SampleSet", consts, name="sampleset-" + mode, timeout=3000)
+    print(f"[{prop}] TLC enumerated {ncases} cases in {time.time() - t0:.0f}s", flush=True)
     if replay_path:
         scen = json.loads(open(replay_path).read())["scenario"]
         todo = [(0, scen["params"]["case"])]
@@ -244,11 +245,12 @@ def main(prop, tier, seed, replay_path=None):
         idx = list(range(len(cases)))
         rnd.shuffle(idx)
         if tier == "quick":
-            idx = idx[: 9000 if mode == "algebra" else 6000]
+            idx = idx[: 30000 if mode == "algebra" else 20000]
         todo = [(i, cases[i]) for i in idx]
     ctx = mp.get_context("fork")
     with ctx.Pool(min(16, os.cpu_count() or 4)) as pool:
         results = pool.map(run_case, todo, chunksize=max(1, len(todo) // 64))
+    print(f"[{prop}] replayed {len(todo)} cases by {time.time() - t0:.0f}s", flush=True)
     errs = [x for x in results if "error" in x]
     if errs:
         raise MachineryError(f"{len(errs)} cases crashed, first:\n{errs[0]['error']}")
